@@ -149,8 +149,10 @@ Definition fill_buffer (required desired : N) (s : mstate) : bool * mstate :=
 Fixpoint available_loop (fuel : nat) (i nreq nmax : N) (s : mstate) : bool * mstate :=
   let size := lenN (buf s) in
   let remaining := size - i in                 (* i <= size on every path the compiled programs can take *)
-  if (i <? size) && (nreq <=? remaining) then (true, s)
-  else if (i <? size) && interactive s then (false, s)
+  if (i <? size) && (nmax <=? remaining) then (true, s)
+  else if (i <? size) && interactive s then (nreq <=? remaining, s)     (* an interactive source is not asked while unread input remains *)
+  else if (i <? size) && (nreq <=? remaining)
+  then (true, snd (fill_buffer 0 (nmax - remaining) s))               (* enough to go on: top up to the desired amount if the source has it *)
   else match fuel with
        | O => (false, s)
        | S f => let '(ok, s') := fill_buffer (nreq - remaining) (nmax - remaining) s in
@@ -164,7 +166,7 @@ Definition subject_from (i : N) (s : mstate) : list N := skipnN i (buf s).
 (* ------------------------------------------------------------------ matchers: (failed?, state) *)
 Definition m_any (flags : N) (s : mstate) : bool * mstate :=
   if negb (flags =? 0) && interactive s then (true, s)
-  else let '(ok, s1) := available (sr s) 1 0 s in
+  else let '(ok, s1) := available (sr s) 1 max_rune_units s in
        if ok then match subject_from (sr s1) s1 with
                   | _ :: rest => (false, upd_sr (sr s1 + 1 + N.of_nat (skip_trail rest)) s1)
                   | [] => (true, s1)
@@ -198,7 +200,7 @@ Definition m_octet (b : N) (s : mstate) : bool * mstate :=
 
 (* match_rune: decode one rune from what is buffered and test it *)
 Definition m_rune (ucd : ucd_table) (test : N -> option bool) (s : mstate) : result + (bool * mstate) :=
-  let '(ok, s1) := available (sr s) 1 0 s in
+  let '(ok, s1) := available (sr s) 1 max_rune_units s in
   if ok then
     let '(n, rune) := decode_rune (subject_from (sr s1) s1) in
     match n with
